@@ -139,7 +139,7 @@ CHECKS['C01'] = dict(
           'returned, the reported exception is one the target raised or WorkerTerminatedError or None. Every single landing point is replayed on '
           'the real workers (sys.settrace in-process for thread kinds, sitecustomize tracer in spawned children for process kinds and in the backends '
           'a real loopback server spawns for remote kinds, incl. SIGKILL and SIGKILL mid-send) and compared with the model; accessors are read '
-          'three times; the parent side of remote workers is probed with results that are slow to rebuild.'),
+          'three times; the parent side of remote workers is probed with results that are slow to rebuild. The parent-side branch of RemoteWorker.is_alive is regenerated as a list of decision steps (Gen/RemoteLive.v): theorem - in every state of the cached flags and whatever the child process and the frontend thread do during the call, it says dead only after the frontend thread has stored the outcome; refutation for a cache consulted first.'),
     design='5/C01',
     note=('Assumes asynchronous exceptions land at statement boundaries or inside an interruptible target, and FIFO pipes with at most one truncated '
           'trailing message. The server process between a remote parent and its backend, and TCP, are not modelled. Pairs of landing points and opcode-level '
@@ -166,7 +166,7 @@ CHECKS['C04'] = dict(
           'nothing; terminate(force=True) of a process worker leaves no child. All by exhaustive case analysis in Coq. The REAL methods are run '
           'on every history of length <= 3/4 against a scripted child that records each blocking call with its timeout, and compared with the '
           'model; real unresponsive children (C sleep holding the interpreter lock, SIGSTOP, swallowing loop, sleep) are terminated under a '
-          'wall-clock bound.'),
+          'wall-clock bound. Remote kind, parent side: is_alive / wait / terminate regenerated as decision lists (Gen/RemoteLive.v) and interpreted over every state of the cached flags and every environment behaviour: each answers, says dead only when the child process is gone and the outcome stored, keeps the cached flags true (so any number of calls in any order); refutation for an answer given without asking the server. Real lingering children (result delivered, process kept alive) for process and remote kinds.'),
     design='5/C04',
     note=('Wall-clock itself and kernel signal semantics are assumptions (the reaction table of Ctrl/Model.v), exercised on real children. Remote '
           'kinds: the parent side forwards to the server-side process logic; covered by real children in the thorough tier only. ' + COMMON_NOTE),
@@ -205,7 +205,7 @@ CHECKS['C16'] = dict(
           'own exception, graceful terminate inside the running target) synchronises, and that a kill at any statement boundary lets a state through '
           'exactly when the complete result message had been written. Real workers of the six classes are run with random init values, 0-10 '
           'assignments and the three endings: the parent polls user_state while the worker is alive, checks it after death, the rejected '
-          'parent-side assignment, restart() and a second incarnation.'),
+          'parent-side assignment, restart() and a second incarnation. Process kind: the reception shape (Gen/Transport.v, flag result_only_when_dead) gives the theorem that nothing of the final message - outcome or state - is taken over while the child lives, for every history of timed waits and accessor calls; refutation for accessors using a message received early.'),
     design='5/C16',
     note=('Remote kinds: the backend sends the state as a message of its own after the result (SockSendState in the regenerated skeleton of _run_backend); the theorems cover it. Thread kinds share memory '
           '(unspecified while alive). ' + COMMON_NOTE),
